@@ -54,11 +54,28 @@ func (w *astWalker) walk(n ast.Node) {
 		// See #252
 		w.walkIdentList(n.Names)
 		w.walk(n.Type)
+		if n.Tag != nil {
+			w.walk(n.Tag)
+		}
 
 	case *ast.FieldList:
 		for _, f := range n.List {
 			w.walk(f)
 		}
+
+	case *ast.Ident:
+		w.visit(n, nodetag.Ident)
+
+	case *ast.BasicLit:
+		w.visit(n, nodetag.BasicLit)
+
+	case *ast.EmptyStmt:
+		w.visit(n, nodetag.EmptyStmt)
+
+	case *ast.IndexListExpr:
+		w.visit(n, nodetag.IndexListExpr)
+		w.walk(n.X)
+		w.walkExprList(n.Indices)
 
 	case *ast.Ellipsis:
 		w.visit(n, nodetag.Ellipsis)
@@ -148,6 +165,9 @@ func (w *astWalker) walk(n ast.Node) {
 
 	case *ast.FuncType:
 		w.visit(n, nodetag.FuncType)
+		if n.TypeParams != nil {
+			w.walk(n.TypeParams)
+		}
 		if n.Params != nil {
 			w.walk(n.Params)
 		}
@@ -330,6 +350,9 @@ func (w *astWalker) walk(n ast.Node) {
 			w.walk(n.Doc)
 		}
 		w.walk(n.Name)
+		if n.TypeParams != nil {
+			w.walk(n.TypeParams)
+		}
 		w.walk(n.Type)
 		if n.Comment != nil {
 			w.walk(n.Comment)
